@@ -2,6 +2,7 @@ from propdefs.common import *
 
 PROP = {
     "bin": "c13",
+    "minimize": True,   # harness implements `--only i --keep p0,p1,..` (notes/minimisation.md)
     "coq_targets": ["theories/Flow/C13Check"],
     "n": {"quick": 480, "thorough": 12000},
     "theorems": ["constants_sound", "constants_eval_sound", "constants_exact", "constants_remap_total", "constants_completes", "constants_only_budget_error", "constants_half_assigned_repaired"],
